@@ -2595,6 +2595,22 @@ int add_program_file (const char *name, int top) {
   return mem_block[A_STRINGS].block ? store_prog_string (name) + 1 : 0;
 }
 
+/**
+ * @brief Note in mem_block A_INCLUDES that an #include looked for this file and did not find it.
+ * The program would be compiled from another header if the file existed, so a saved binary
+ * is out of date as soon as it does. The entry is the name with a leading '/', which the name
+ * of an included file (relative to the mudlib directory) never has.
+ * @param name The name of the file that does not exist.
+ */
+void add_program_file_absent (const char *name) {
+  if (mem_block[A_INCLUDES].block)
+    {
+      opt_trace (TT_COMPILE|2, "adding (absent): \"%s\"", name);
+      add_to_mem_block (A_INCLUDES, "/", 1);
+      add_to_mem_block (A_INCLUDES, name, strlen (name) + 1);
+    }
+}
+
 void init_lpc_compiler(size_t max_locals, const char* include_dirs) {
   init_instrs ();
   init_identifiers ();
